@@ -695,8 +695,48 @@ func init() {
 		}
 		o := st.newObject(objCell, nil)
 		o.val = &StructVal{}
-		o.ext = &readerExt{src: rd.src, pos: rd.pos}
+		size := 4096
+		if len(a) > 1 {
+			size = ex.intArg(st, a[1], "bufio buffer size")
+			if size < 16 {
+				size = 16
+			}
+		}
+		o.ext = &readerExt{src: rd.src, pos: rd.pos, size: size, bufEnd: rd.pos}
 		return &Ptr{obj: o.id}
+	}
+	intrinsics["bufio.NewReaderSize"] = intrinsics["bufio.NewReader"]
+	intrinsics["(*bufio.Reader).Read"] = func(ex *Exec, st *State, fr *Frame, c *ssa.Call, a []Value) Value {
+		p := a[0].(*Ptr)
+		rd := st.obj(p.obj).ext.(*readerExt)
+		buf := a[1].(*SliceVal)
+		avail := mkBin(OpSub, rd.src.len, rd.pos)
+		if !ex.branch(st, mkCmp(OpUlt, c64(0), buf.len)) {
+			return &TupleVal{vals: []Value{c64(0), &IfaceVal{}}}
+		}
+		if !ex.branch(st, mkCmp(OpUlt, c64(0), avail)) {
+			return &TupleVal{vals: []Value{c64(0), ex.stdGlobal(st, "io", "EOF")}}
+		}
+		end := rd.bufEnd
+		var nt *Term
+		if ex.branch(st, mkEq(rd.bufEnd, rd.pos)) {
+			if ex.branch(st, mkCmp(OpUle, c64(rd.size), buf.len)) {
+				nt = umin(buf.len, avail) // large read: straight from the source, the buffer stays empty
+				end = mkBin(OpAdd, rd.pos, nt)
+			} else {
+				end = umin(mkBin(OpAdd, rd.pos, c64(rd.size)), rd.src.len) // one fill
+				nt = umin(buf.len, mkBin(OpSub, end, rd.pos))
+			}
+		} else {
+			nt = umin(buf.len, mkBin(OpSub, rd.bufEnd, rd.pos))
+		}
+		n := ex.concretize(st, nt, "bufio read count", 1<<16)
+		src := &SliceVal{obj: rd.src.obj, off: mkBin(OpAdd, rd.src.off, rd.pos), len: c64(n), cap: c64(n), elem: rd.src.elem}
+		ex.copyBytesN(st, buf, src, c64(n))
+		w := st.wobj(p.obj).ext.(*readerExt)
+		w.pos = mkBin(OpAdd, rd.pos, c64(n))
+		w.bufEnd = end
+		return &TupleVal{vals: []Value{c64(n), &IfaceVal{}}}
 	}
 	intrinsics["(*bufio.Reader).ReadByte"] = func(ex *Exec, st *State, fr *Frame, c *ssa.Call, a []Value) Value {
 		p := a[0].(*Ptr)
@@ -705,6 +745,9 @@ func init() {
 		if ex.branch(st, mkCmp(OpUlt, c64(0), avail)) {
 			b := ex.byteAt(st, st.obj(rd.src.obj), mkBin(OpAdd, rd.src.off, rd.pos))
 			w := st.wobj(p.obj)
+			if e := rd.consumed(c64(1)); e != nil {
+				w.ext.(*readerExt).bufEnd = e
+			}
 			w.ext.(*readerExt).pos = mkBin(OpAdd, rd.pos, c64(1))
 			return &TupleVal{vals: []Value{b, &IfaceVal{}}}
 		}
@@ -719,11 +762,17 @@ func init() {
 		ex.oblige(st, mkCmp(OpSle, c64(0), n), "panic:discard", "bufio: negative count")
 		if ex.branch(st, mkCmp(OpUle, n, avail)) {
 			w := st.wobj(p.obj)
+			if e := rd.consumed(n); e != nil {
+				w.ext.(*readerExt).bufEnd = e
+			}
 			w.ext.(*readerExt).pos = mkBin(OpAdd, rd.pos, n)
 			return &TupleVal{vals: []Value{n, &IfaceVal{}}}
 		}
 		w := st.wobj(p.obj)
 		w.ext.(*readerExt).pos = rd.src.len
+		if rd.size != 0 {
+			w.ext.(*readerExt).bufEnd = rd.src.len
+		}
 		return &TupleVal{vals: []Value{avail, ex.stdGlobal(st, "io", "EOF")}}
 	}
 
@@ -1064,6 +1113,26 @@ func (c *cbcExt) cloneExt() Ext { n := *c; return &n }
 type readerExt struct {
 	src *SliceVal
 	pos *Term
+	// bufio.Reader over a bytes.Reader: size of its buffer and the source position up to which octets are
+	// buffered (bufEnd == pos: empty).  Only a direct Read call can observe the buffer (it returns at most
+	// what one fill delivers); ReadByte / io.ReadFull / Discard keep the bookkeeping exact.
+	size   int
+	bufEnd *Term
+}
+
+func umin(a, b *Term) *Term { return mkIte(mkCmp(OpUle, a, b), a, b) }
+
+// consumed returns the buffer end after n octets (all available) have been consumed through
+// ReadFull / Discard / ReadByte, following bufio's rules for a source that delivers everything it has.
+func (r *readerExt) consumed(n *Term) *Term {
+	if r.size == 0 {
+		return nil
+	}
+	buffered := mkBin(OpSub, r.bufEnd, r.pos)
+	rest := mkBin(OpSub, n, buffered)
+	direct := mkCmp(OpUle, c64(r.size), rest)
+	return mkIte(mkCmp(OpUle, n, buffered), r.bufEnd,
+		mkIte(direct, mkBin(OpAdd, r.pos, n), umin(mkBin(OpAdd, r.bufEnd, c64(r.size)), r.src.len)))
 }
 
 func (r *readerExt) cloneExt() Ext { n := *r; return &n }
@@ -1470,6 +1539,9 @@ func (ex *Exec) readerReadFull(st *State, robj int, rd *readerExt, buf *SliceVal
 		src := &SliceVal{obj: rd.src.obj, off: mkBin(OpAdd, rd.src.off, rd.pos), len: n, cap: n, elem: rd.src.elem}
 		ex.copyBytesN(st, buf, src, n)
 		w := st.wobj(robj)
+		if e := rd.consumed(n); e != nil {
+			w.ext.(*readerExt).bufEnd = e
+		}
 		w.ext.(*readerExt).pos = mkBin(OpAdd, rd.pos, n)
 		return &TupleVal{vals: []Value{n, &IfaceVal{}}}
 	case 2:
@@ -1488,6 +1560,9 @@ func (ex *Exec) readerReadFull(st *State, robj int, rd *readerExt, buf *SliceVal
 		}
 		w := st.wobj(robj)
 		w.ext.(*readerExt).pos = rd.src.len
+		if rd.size != 0 {
+			w.ext.(*readerExt).bufEnd = rd.src.len
+		}
 		return &TupleVal{vals: []Value{avail, ex.stdGlobal(st, "io", "ErrUnexpectedEOF")}}
 	}
 }
